@@ -120,14 +120,17 @@ pub fn run_jobs(ctx: &Ctx, jobs: &[Job], props: u32, stop_prop: u32, cap_states:
   let known: Vec<(u32, String)> = load_known_findings().into_iter().filter(|k| k.status == "open").map(|k| (prop_bit(&k.property), k.signature)).collect();
   par_fold(jobs.len(), ctx.threads, Agg::default, |ji, acc: &mut Agg| {
     let (name, layout, alphabet, n) = jobs[ji].materialise();
-    let opts = Opts { n, max_states: cap_states, props, stop_prop, known: known.clone(), conformance_stride: 64, keep_samples: if ji % 97 == 0 { 1 } else { 0 } };
+    // generated layouts are tiny on a correct tree (hundreds to a few thousand states): a much lower cap keeps a
+    // tree whose bookkeeping grows without bound from exhausting memory before the cap is reported
+    let cap_here = match &jobs[ji] { Job::Gen { .. } => cap_states.min(400_000), Job::Fixed { name, .. } if name.starts_with("Q4-") || name.starts_with("S4-") || name.starts_with("S5-") => cap_states.min(400_000), _ => cap_states };
+    let opts = Opts { n, max_states: cap_here, props, stop_prop, known: known.clone(), conformance_stride: 64, keep_samples: if ji % 97 == 0 { 1 } else { 0 }, max_depth: 48 };
     let r = explore(&layout, &alphabet, &opts);
     acc.layouts += 1; acc.states += r.states as u64; acc.transitions += r.transitions; acc.max_depth = acc.max_depth.max(r.depth);
     acc.rest_states += r.rest_states as u64; acc.nontrivial_states += r.nontrivial_states; acc.conformance += r.conformance_replayed; acc.blocks += r.blocks as u64;
     if r.states > acc.largest.0 { acc.largest = (r.states, name.clone()); }
     for (k, v) in &r.antecedents { *acc.antecedents.entry(k).or_insert(0) += v; }
     if let Some(f) = &r.conformance_fail { acc.failures.push(format!("conformance: layout {}: {}", name, f)); }
-    if !r.complete && !r.stopped_on_violation { acc.incomplete.push(format!("{} (cap {} states reached at N={} over {} keys)", name, cap_states, n, alphabet.len())); }
+    if !r.complete && !r.stopped_on_violation { acc.incomplete.push(format!("{} ({} at N={} over {} keys: the reachable state space looks unbounded)", name, if r.depth_capped { "BFS depth 48 exceeded".to_string() } else { format!("cap of {} states reached", cap_here) }, n, alphabet.len())); }
     let lj = layout_json(&layout);
     if let Some((p, msg)) = &r.panic { acc.panics.push((json!({"name": name, "layout": lj, "bound": n}), p.clone(), msg.clone())); }
     for s in r.samples { if acc.samples.len() < 6 { acc.samples.push(json!({"layout": name, "mappings": lj["mappings"], "history": s["history"], "held_after": s["held_after"]})); } }
@@ -189,8 +192,8 @@ fn plan_for(id: &str, tier: Tier) -> Plan {
     // whole corpus, no monitor needed
     "C01" | "C02" | "C19" | "C06" | "C05" => {
       let mut gens = vec![
-        g(Family::Gen, full_cfg(Family::Gen), 1, 4, 1, "all single mappings of G-gen"),
-        g(Family::Dist, full_cfg(Family::Dist), 1, 4, 1, "all single mappings of G-dist"),
+        g(Family::Gen, full_cfg(Family::Gen), 1, 6, 1, "all single mappings of G-gen, no bound on held keys (6-key alphabet)"),
+        g(Family::Dist, full_cfg(Family::Dist), 1, 6, 1, "all single mappings of G-dist, no bound on held keys (6-key alphabet)"),
       ];
       if q {
         gens.push(g(Family::Gen, cfg_with(Family::Gen, &red_f, &[0, 1], true, Some(vec![0, 2, 3, 5, 7, 8])), 2, 3, 1, "all ordered pairs of reduced G-gen (finals A,CAPSLOCK,LEFTSHIFT; repeat Normal/Disabled; outputs [],[LEFTSHIFT,X],[A],[LEFTSHIFT,A],[LEFTSHIFT],[X,Y])"));
@@ -211,7 +214,7 @@ fn plan_for(id: &str, tier: Tier) -> Plan {
       Plan { need: Need::Any, gens, required_antecedents: req, rule: String::new() }
     }
     "C03" | "C04" => {
-      let mut gens = vec![g(Family::Dist, cfg_with(Family::Dist, &all_f, &[0, 1, 2], false, None), 1, 4, 1, "all non-absorbing single mappings of G-dist")];
+      let mut gens = vec![g(Family::Dist, cfg_with(Family::Dist, &all_f, &[0, 1, 2], false, None), 1, 6, 1, "all non-absorbing single mappings of G-dist, no bound on held keys (6-key alphabet)")];
       if q {
         gens.push(g(Family::Dist, cfg_with(Family::Dist, &all_f, &[0, 1, 2], false, None), 2, 3, 0, "all ordered non-absorbing pairs of G-dist (no foreign keys)"));
         gens.push(g(Family::Dist, deep_cfg(Family::Dist, &[0], false), 2, 4, 0, "non-absorbing Normal pairs with up to three other trigger keys (finals B, A), N=4"));
@@ -227,7 +230,7 @@ fn plan_for(id: &str, tier: Tier) -> Plan {
     "C07" | "C09" => {
       let need = if id == "C07" { Need::NoRepeat } else { Need::Special };
       let reps: &[u8] = if id == "C07" { &[0, 1, 2] } else { &[0, 2] };
-      let mut gens = vec![g(Family::Dist, full_cfg(Family::Dist), 1, 4, 1, "all single mappings of G-dist with the repeat mode in question")];
+      let mut gens = vec![g(Family::Dist, full_cfg(Family::Dist), 1, 6, 1, "all single mappings of G-dist with the repeat mode in question, no bound on held keys (6-key alphabet)")];
       if q {
         gens.push(g(Family::Dist, cfg_with(Family::Dist, &red_f, reps, true, None), 2, 3, 0, "ordered pairs of reduced G-dist (finals A,CAPSLOCK,LEFTSHIFT) containing such a mapping"));
       } else {
@@ -239,13 +242,13 @@ fn plan_for(id: &str, tier: Tier) -> Plan {
       Plan { need, gens, required_antecedents: req, rule: String::new() }
     }
     "C08" => {
-      let mut gens = vec![g(Family::Dist, full_cfg(Family::Dist), 1, 4, 1, "all absorbing single mappings of G-dist")];
+      let mut gens = vec![g(Family::Dist, full_cfg(Family::Dist), 1, 6, 1, "all absorbing single mappings of G-dist, no bound on held keys (6-key alphabet)")];
       if q {
-        gens.push(g(Family::Dist, cfg_with(Family::Dist, &red_f, &[0, 1], true, None), 2, 3, 0, "ordered pairs of reduced G-dist with an absorbing mapping"));
+        gens.push(g(Family::Dist, cfg_with(Family::Dist, &red_f, &[0, 1], true, Some(vec![0, 1, 3, 4, 6])), 2, 3, 0, "ordered pairs of reduced G-dist (outputs [D],[LEFTSHIFT,D],[],[LEFTMETA],[own modifiers,D]) with an absorbing mapping"));
         gens.push(g(Family::Dist, cfg_with(Family::Dist, &[A, LEFTSHIFT], &[0], true, Some(vec![0, 2, 3])), 3, 3, 0, "ordered triples of a small G-dist subset (finals A,LEFTSHIFT; Normal; outputs [D],[LCTRL,D],[]) with an absorbing mapping — the stacked corner needs three mappings"));
       } else {
         gens.push(g(Family::Dist, full_cfg(Family::Dist), 2, 3, 1, "all ordered pairs of G-dist with an absorbing mapping"));
-        gens.push(g(Family::Gen, cfg_with(Family::Gen, &red_f, &[0, 1], true, Some(vec![0, 1, 2, 3, 5, 6])), 2, 3, 1, "ordered pairs of reduced G-gen with an absorbing mapping"));
+        gens.push(g(Family::Gen, cfg_with(Family::Gen, &red_f, &[0, 1], true, Some(vec![0, 1, 2, 3, 5, 6, 7, 9])), 2, 3, 1, "ordered pairs of reduced G-gen with an absorbing mapping"));
         gens.push(g(Family::Dist, triple_cfg(Family::Dist, &[0], vec![0, 2, 3, 4]), 3, 3, 0, "ordered triples of a reduced G-dist (at most one other trigger key, Normal) with an absorbing mapping"));
         gens.push(g(Family::Dist, deep_cfg(Family::Dist, &[0], true), 2, 4, 0, "pairs with up to three other trigger keys and every absorbing subset (finals B, A), N=4"));
         gens.push(g(Family::Dist, cfg_with(Family::Dist, &red_f, &[0, 1], true, None), 2, 8, 1, "reduced G-dist pairs with no bound on held keys"));
@@ -268,7 +271,7 @@ pub fn q4_jobs(need: Need, special: bool) -> Vec<Job> {
     let mut ms = vec![]; let (mut oo, mut rr) = (o, r);
     for q in 0..4 {
       let to = match oo % 5 { 0 => vec![dk[q]], 1 => vec![LEFTSHIFT, dk[q]], 2 => vec![LEFTCTRL, dk[q]], 3 => vec![], _ => vec![LEFTSHIFT] };
-      let repeat = if rr % 2 == 0 { Repeat::Normal } else if special { Repeat::Special { keys: vec![F24], delay_ms: 100 + q as i32, interval_ms: 10 + q as i32 } } else { Repeat::Disabled };
+      let repeat = if rr % 2 == 0 { Repeat::Normal } else if special { Repeat::Special { keys: vec![F24, LEFTCTRL], delay_ms: 100 + q as i32, interval_ms: 10 + q as i32 } } else { Repeat::Disabled };
       oo /= 5; rr /= 2;
       ms.push(Mapping { from: vec![trig[q]], to, repeat, absorbing: vec![] });
     }
